@@ -17,6 +17,12 @@ var propEntries = map[string][]string{
 	"C10": {"(*Mast).Cursor", "(*Cursor).Min", "(*Cursor).Max", "(*Cursor).Get", "(*Cursor).Forward", "(*Cursor).Backward",
 		"(*Cursor).Ceil", "(*Cursor).String", "(*Mast).SeekIter"},
 	"C15": {"(*Mast).DiffIter", "(*Mast).DiffLinks", "(*Mast).StartDiff", "(*DiffCursor).NextEntry"},
+	"C03": {"(*Mast).MakeRoot"},
+	"C05": {"(*Mast).MakeRoot", "(*Root).LoadMast", "NewRoot"},
+	"C19": {"(*Root).LoadMast"},
+	"C12": {"(*Mast).Insert", "(*Mast).Delete", "(*Mast).Get", "(*Mast).Iter", "(*Mast).SeekIter", "(*Mast).DiffIter", "(*Mast).DiffLinks",
+		"(*Mast).StartDiff", "(*DiffCursor).NextEntry", "(*Mast).Clone", "(*Mast).Cursor", "(*Cursor).Min", "(*Cursor).Max", "(*Cursor).Forward",
+		"(*Cursor).Backward", "(*Cursor).Ceil", "(*Cursor).Get"},
 }
 
 func (F *Facts) reachFromProp(p string) map[*ssa.Function]bool {
